@@ -293,6 +293,26 @@ def rw_for_zip(text: str, nth: int) -> str:
   return text[:kwo] + new + text[lbc + 1:]
 
 
+_FOPS = {'+': 'verif_fadd', '-': 'verif_fsub', '*': 'verif_fmul', '/': 'verif_fdiv', '<': 'verif_flt', '<=': 'verif_fle', '>': 'verif_fgt', '>=': 'verif_fge'}
+
+
+def rw_named_ops(text: str) -> str:
+  """R14: operators that Verus gives no meaning in exec code are routed through named stubs, operands and their
+  order kept exactly as written (so a swapped operand or a changed operator changes the verified term):
+     A.to_num() OP B.to_num()                         -> verif_f<op>(A.to_num(), B.to_num())
+     -A.to_num()                                      -> verif_fneg(A.to_num())
+     (*A.to_obj().to_str()).cmp(&B.to_obj().to_str()) == Ordering::Less|Greater -> verif_str_less|greater(A.., B..)
+     A == B / A != B on the identifiers left/right (Value's PartialEq)          -> verif_val_eq / verif_val_ne(A, B)"""
+  t = re.sub(r'(\w+)\.to_num\(\)\s*(<=|>=|[-+*/<>])\s*(\w+)\.to_num\(\)',
+             lambda m: '%s(%s.to_num(), %s.to_num())' % (_FOPS[m.group(2)], m.group(1), m.group(3)), text)
+  t = re.sub(r'(?<![\w)])-(\w+)\.to_num\(\)', lambda m: 'verif_fneg(%s.to_num())' % m.group(1), t)
+  t = re.sub(r'\(\*(\w+)\.to_obj\(\)\.to_str\(\)\)\s*\.cmp\(&(\w+)\.to_obj\(\)\.to_str\(\)\)\s*==\s*Ordering::(Less|Greater)',
+             lambda m: 'verif_str_%s(%s.to_obj().to_str(), %s.to_obj().to_str())' % (m.group(3).lower(), m.group(1), m.group(2)), t)
+  t = re.sub(r'\b(left|right)\s*(==|!=)\s*(left|right)\b',
+             lambda m: '%s(%s, %s)' % ('verif_val_eq' if m.group(2) == '==' else 'verif_val_ne', m.group(1), m.group(3)), t)
+  return t
+
+
 def rw_project_struct(text: str, keep: List[str]) -> str:
   """R10: keep only the named fields of a braced struct"""
   o = text.index('{')
@@ -546,6 +566,7 @@ def build_unit(name: str, variant: Optional[str] = None, canary: bool = False) -
         elif rule == 'R1': new = rw_mut_self(new)
         elif rule == 'R2': new = rw_slice_match(new)
         elif rule == 'R10': new = rw_project_struct(new, args['keep'])
+        elif rule == 'R14': new = rw_named_ops(new)
         elif rule == 'R13z': new = rw_for_zip(new, args.get('nth', 0))
         elif rule == 'R13': new = rw_for_slice(new, args.get('nth', 0), args.get('mutable', False))
         elif rule == 'R7f': new = rw_pub_fields(new)
